@@ -186,3 +186,133 @@ def _m_string_escape(v):
         # the printed text does not parse (or parses to something else): only explained if a literal is predicted unlexable
         return any(sim_print_parse(s, q, k) is None for k, s, q in trig)
     return False
+
+
+# ------------------------------------------------------------------------------ decompiler defect models
+def _spec_ops(v):
+    spec = (v.get("input") or {}).get("spec")
+    if not spec:
+        return None
+    return spec["routines"]
+
+
+def _jump_target(op):
+    from vf.lts import JUMP_IDX
+
+    off, name, ps = op[0], op[1], op[2]
+    if name in JUMP_IDX and len(ps) > JUMP_IDX[name]:
+        t = ps[JUMP_IDX[name]]
+        return t[1] if isinstance(t, (list, tuple)) else t
+    return None
+
+
+def _reachable_offsets(routine):
+    """offsets of the ops of one routine that are reachable from its first op (following jumps inside the routine)"""
+    from vf.lts import FLOW_END, CTX_OPS
+
+    ops = routine["ops"]
+    idx = {o[0]: i for i, o in enumerate(ops)}
+    seen = set()
+    stack = [0] if ops else []
+    while stack:
+        i = stack.pop()
+        if i in seen or i >= len(ops):
+            continue
+        seen.add(i)
+        off, name, ps = ops[i][0], ops[i][1], ops[i][2]
+        t = _jump_target(ops[i])
+        if t is not None and t in idx:
+            stack.append(idx[t])
+        after_ctx = i > 0 and ops[i - 1][1] in CTX_OPS
+        if name == "Jump" or (name in FLOW_END and not after_ctx):
+            continue
+        stack.append(i + 1)
+    return {ops[i][0] for i in seen}
+
+
+@model("cross-routine-jump-to-unreachable-op")
+def _m_unreachable_target(v):
+    """Trigger: a jump-carrying op whose target lies in another routine and is not reachable from that routine's own first op
+    (the decompiler only writes reachable ops). Observation: the text is rejected because the label is never written."""
+    rs = _spec_ops(v)
+    if not rs:
+        return False
+    w = v.get("witness") or {}
+    if "does not exist, but a jump to it does" not in str(w.get("error", "")):
+        return False
+    owner = {}
+    for ri, r in enumerate(rs):
+        for o in r["ops"]:
+            owner[o[0]] = ri
+    reach = [_reachable_offsets(r) for r in rs]
+    for ri, r in enumerate(rs):
+        for o in r["ops"]:
+            t = _jump_target(o)
+            if t is not None and t in owner and owner[t] != ri and t not in reach[owner[t]]:
+                return True
+    return False
+
+
+@model("branchvalue-with-equals-operator")
+def _m_branchvalue_eq(v):
+    """Trigger: a BranchValue op with operator 2 (==). Observation: it comes back as Branch with the same variable and value."""
+    rs = _spec_ops(v)
+    if not rs or not any(o[1] == "BranchValue" and len(o[2]) > 1 and o[2][1] in (2, ["int", 2], ("int", 2)) for r in rs for o in r["ops"]):
+        return False
+    w = v.get("witness") or {}
+    s, i = w.get("spec"), w.get("impl")
+    if not s or not i or len(s) < 3 or len(i) < 3:
+        return False
+    return s[1] == "BranchValue" and i[1] == "Branch" and list(map(_norm_param, s[2]))[1] in (("int", 2),) and \
+        [x for k, x in enumerate(map(_norm_param, s[2])) if k != 1] == list(map(_norm_param, i[2]))
+
+
+@model("test-that-loops-back-to-itself")
+def _m_self_loop(v):
+    """Trigger: a Branch*/Case*/Call op from which one outcome leads back to the same op through jumps only (an empty
+    while body, `@l; call @l;`). Observation: a behaviour mismatch (clause ii / iii) in a routine that contains such an op."""
+    from vf.lts import JUMP_IDX
+
+    rs = _spec_ops(v)
+    if not rs:
+        return False
+    w = v.get("witness") or {}
+    if w.get("clause") not in ("ii", "iii"):
+        return False
+    byoff = {}
+    nxt = {}
+    for r in rs:
+        for i, o in enumerate(r["ops"]):
+            byoff[o[0]] = o
+            nxt[o[0]] = r["ops"][i + 1][0] if i + 1 < len(r["ops"]) else None
+
+    def silent(off):
+        seen = set()
+        while off is not None and off in byoff and byoff[off][1] == "Jump" and off not in seen:
+            seen.add(off)
+            off = _jump_target(byoff[off])
+        return off
+
+    ri = w.get("routine")
+    for k, r in enumerate(rs):
+        if ri is not None and k != ri:
+            continue
+        for o in r["ops"]:
+            if o[1] in JUMP_IDX and o[1] != "Jump":
+                if silent(_jump_target(o)) == o[0] or silent(nxt[o[0]]) == o[0]:
+                    return True
+    return False
+
+
+@model("unstructured-input-class")
+def _m_unstructured(v):
+    """Trigger: the input belongs to a workload class with unstructured control flow (programs with user labels and
+    jump / call statements, random flow graphs, random special-opcode sets), as recorded by the generator. Observation:
+    the structured text does not compile because of a missing label, or it compiles but behaves differently (clause ii/iii)."""
+    inp = v.get("input") or {}
+    if not inp.get("unstructured"):
+        return False
+    w = v.get("witness") or {}
+    if w.get("clause") in ("ii", "iii"):
+        return True
+    return "does not exist, but a jump to it does" in str(w.get("error", ""))
